@@ -366,6 +366,33 @@ def splitUpper (c : Corners α) : Corners α :=
     Y := fun n => if n < 4 then midCorner c.Y n else c.Y n,
     Z := fun n => if n < 4 then midCorner c.Z n else c.Z n }
 
+/-- The same subdivision in the `i` direction (cut through the midpoints of the four edges
+`(n, n+1)`, `n` even) and in the `j` direction (edges `(n, n+2)`). -/
+def midCornerI (v : Nat → α) (n : Nat) : α := (v (n - n % 2) + v (n - n % 2 + 1)) / ((2 : Nat) : α)
+
+def midCornerJ (v : Nat → α) (n : Nat) : α :=
+  (v (n - 2 * (n / 2 % 2)) + v (n - 2 * (n / 2 % 2) + 2)) / ((2 : Nat) : α)
+
+def splitLowerI (c : Corners α) : Corners α :=
+  { X := fun n => if n % 2 = 0 then c.X n else midCornerI c.X n,
+    Y := fun n => if n % 2 = 0 then c.Y n else midCornerI c.Y n,
+    Z := fun n => if n % 2 = 0 then c.Z n else midCornerI c.Z n }
+
+def splitUpperI (c : Corners α) : Corners α :=
+  { X := fun n => if n % 2 = 0 then midCornerI c.X n else c.X n,
+    Y := fun n => if n % 2 = 0 then midCornerI c.Y n else c.Y n,
+    Z := fun n => if n % 2 = 0 then midCornerI c.Z n else c.Z n }
+
+def splitLowerJ (c : Corners α) : Corners α :=
+  { X := fun n => if n / 2 % 2 = 0 then c.X n else midCornerJ c.X n,
+    Y := fun n => if n / 2 % 2 = 0 then c.Y n else midCornerJ c.Y n,
+    Z := fun n => if n / 2 % 2 = 0 then c.Z n else midCornerJ c.Z n }
+
+def splitUpperJ (c : Corners α) : Corners α :=
+  { X := fun n => if n / 2 % 2 = 0 then midCornerJ c.X n else c.X n,
+    Y := fun n => if n / 2 % 2 = 0 then midCornerJ c.Y n else c.Y n,
+    Z := fun n => if n / 2 % 2 = 0 then midCornerJ c.Z n else c.Z n }
+
 end Geometry
 
 end OpmVerif.Grid
